@@ -871,7 +871,7 @@ impl Check for C13Check {
         }
     }
     fn rule(&self) -> &'static str {
-        "case = 1-5 file slots (arbitrary non-contiguous FileIds, slot order != id order; one third through trust_hir::Project) x history of 40 (quick) / 80 (thorough) operations: set (add, re-add with same/mutated text, structural edit = rename / change type / change reference / delete / add / reorder declaration, break or repair syntax, whitespace or comment prefix/suffix, degenerate whole-file texts, swap of two files' contents, identical-text set), remove (also of absent files), query(kind, slot) incl. removed and never-added slots, trigger_salsa_cancellation; texts come from a cross-referencing family (struct/enum/alias TYPEs, FUNCTIONs calling each other, FUNCTION_BLOCKs, CONFIGURATION globals + VAR_EXTERNAL programs) drawn from a small name pool so duplicates and dangling references are frequent. distinct non-trivial = distinct hash of the whole case among histories with >= 1 remove followed by a re-add AND >= 1 lazy-twin query answered before a later edit of any file and asked again afterwards"
+        "case = 1-5 file slots (arbitrary non-contiguous FileIds, slot order != id order; one third through trust_hir::Project) x history of 40 (quick) / 80 (thorough) operations: set (add, re-add with same/mutated text, structural edit = rename / change type / change reference / delete / add / reorder declaration, break or repair syntax, whitespace or comment prefix/suffix, degenerate whole-file texts, swap of two files' contents, identical-text set), remove (also of absent files), query(kind, slot) incl. removed and never-added slots, trigger_salsa_cancellation; texts come from a cross-referencing family (struct/enum/alias TYPEs, FUNCTIONs calling each other, FUNCTION_BLOCKs, CONFIGURATION globals + VAR_EXTERNAL programs) drawn from a small name pool so duplicates and dangling references are frequent; round 3: type references REF_TO / ARRAY OF another struct (cyclic type graphs across files), edits that change letter case only, file_symbols_with_project_filtered, up to 8 files. distinct non-trivial = distinct hash of the whole case among histories with >= 1 remove followed by a re-add AND >= 1 lazy-twin query answered before a later edit of any file and asked again afterwards"
     }
     fn assumptions(&self) -> Vec<&'static str> {
         vec![
